@@ -296,6 +296,41 @@ pub fn run(args: &Args) {
                 Err(c) => Err(c.clone()),
             };
             ctx!("or").check(&format!("({}) || ({})", l, r), &or_e, true);
+            // negations as operands: `!` yields a boolean, and `&&` / `||` hand on the operand's VALUE,
+            // so a negation may not be simplified away on the strength of "only the truth value matters"
+            let t = l_out.clone().map(|v| truthy(&v));
+            let nn_e: Out = t.clone().map(Value::Bool);
+            ctx!("double-not").check(&format!("!!({})", l), &nn_e, true);
+            let nn_or: Out = match &t {
+                Ok(true) => Ok(Value::Bool(true)),
+                Ok(false) => r_on_doc.clone(),
+                Err(c) => Err(c.clone()),
+            };
+            ctx!("double-not-or").check(&format!("!!({}) || ({})", l, r), &nn_or, true);
+            let nn_and: Out = match &t {
+                Ok(true) => r_on_doc.clone(),
+                Ok(false) => Ok(Value::Bool(false)),
+                Err(c) => Err(c.clone()),
+            };
+            ctx!("double-not-and").check(&format!("!!({}) && ({})", l, r), &nn_and, true);
+            let n_or: Out = match &t {
+                Ok(false) => Ok(Value::Bool(true)),
+                Ok(true) => r_on_doc.clone(),
+                Err(c) => Err(c.clone()),
+            };
+            ctx!("not-or").check(&format!("!({}) || ({})", l, r), &n_or, true);
+            let n_and: Out = match &t {
+                Ok(false) => r_on_doc.clone(),
+                Ok(true) => Ok(Value::Bool(false)),
+                Err(c) => Err(c.clone()),
+            };
+            ctx!("not-and").check(&format!("!({}) && ({})", l, r), &n_and, true);
+            let rhs_nn: Out = match &l_out {
+                Ok(v) if truthy(v) => Ok(v.clone()),
+                Ok(_) => r_on_doc.clone().map(|v| Value::Bool(truthy(&v))),
+                Err(c) => Err(c.clone()),
+            };
+            ctx!("or-double-not").check(&format!("({}) || !!({})", l, r), &rhs_nn, true);
         }
         // 10. comparisons on the two results
         {
